@@ -289,12 +289,6 @@ func (p *TracerProvider) Shutdown(ctx context.Context) error {
 
 	var retErr error
 	for _, sps := range p.getSpanProcessors() {
-		select {
-		case <-ctx.Done():
-			return ctx.Err()
-		default:
-		}
-
 		var err error
 		sps.state.Do(func() {
 			err = sps.sp.Shutdown(ctx)
